@@ -1874,3 +1874,57 @@ def closure_fields(F, names, owner=None, depth=4):
         todo = [n for n in nxt if F.body(n) is not None]
         depth -= 1
     return res
+
+
+# ----------------------------------------------------------------------------- format templates through String helpers
+
+def expanded_templates(F, body, depth=2):
+    """format templates of a body with the placeholders that print the String result of a crate helper replaced by the helper's own
+    template (`format!("{}_{}", Self::file_prefix(col), bits)` with `file_prefix = format!("index_{col:02}")` reads
+    index_{:02}_{}): list of (block, tokens). Only bodies with a single template are expanded."""
+    tpls = [(bi, tk) for bi, tk, raw in fmt_templates(body) if tk]
+    if len(tpls) != 1 or depth <= 0:
+        return tpls
+    bi0, tk = tpls[0]
+    news = [(bi, t) for bi, t in sorted(body.calls()) if bi in body.normal_blocks() and re.search(r'fmt::rt::Argument::<.*>::new_\w+', str(t.get('fa') or t.get('r') or ''))]
+    out, k = [], 0
+    for tok in tk:
+        if tok[0] != 'arg':
+            out.append(tok)
+            continue
+        rep = None
+        if k < len(news):
+            nb_, nt = news[k]
+            if 'std::string::String' in str(nt.get('fa') or '') and nt['a'] and op_place(nt['a'][0]) is not None:
+                sl = backward_slice(body, [op_place(nt['a'][0])])
+                hs = [c for c in sorted(sl.calls) if c in F.bodies and c != body.path and str(F.bodies[c].locals[0]) == 'std::string::String']
+                if len(hs) == 1:
+                    ht = expanded_templates(F, F.bodies[hs[0]], depth - 1)
+                    if len(ht) == 1:
+                        rep = ht[0][1]
+        k += 1
+        out.extend(rep if rep is not None else [tok])
+    # adjacent literals merge
+    merged = []
+    for tok in out:
+        if merged and merged[-1][0] == 'lit' and tok[0] == 'lit':
+            merged[-1] = ('lit', merged[-1][1] + tok[1])
+        else:
+            merged.append(tok)
+    return [(bi0, merged)]
+
+
+def string_tokens(F, body, operand, depth=2):
+    """template tokens of the String that feeds `operand` (formatted here, or returned by a crate helper), else None"""
+    pl = op_place(operand)
+    if pl is None:
+        return None
+    sl = backward_slice(body, [pl])
+    if any(c in ('std::fmt::format', 'alloc::fmt::format') or c.endswith('fmt::format') for c in sl.calls):
+        et = expanded_templates(F, body, depth)
+        return et[0][1] if len(et) == 1 else None
+    hs = [c for c in sorted(sl.calls) if c in F.bodies and c != body.path and str(F.bodies[c].locals[0]) == 'std::string::String']
+    if len(hs) == 1:
+        et = expanded_templates(F, F.bodies[hs[0]], depth)
+        return et[0][1] if len(et) == 1 else None
+    return None
